@@ -20,6 +20,9 @@ FIXED = [
      "fix: Process.children() leaked a bare PermissionError", "EACCES on /proc/<pid>/stat inside ppid_map()"),
     ("C03", ["malformed_value:threads:empty_list"], "fix: _raise_if_not_alive() probes /proc/PID/stat",
      "threads() of a process in the #2418 teardown window (directory listed, files gone) returned []"),
+    ("C03", ["error_without_fault:NoSuchProcess:environ", "error_without_fault:NoSuchProcess:as_dict"],
+     "fix: environ() raised NoSuchProcess for live kernel threads",
+     "kernel 6.18: open('/proc/2/environ') -> ESRCH -> Process(2).environ() raises NoSuchProcess for live kthreadd; process_iter(attrs=['environ']) drops every kernel thread"),
     ("C04", ["pid_exists_raised:exc:OverflowError:pid_beyond_C_int"], "fix: pid_exists() raised OverflowError", "pid_exists(2**31)"),
     ("C04", ["concurrent_iter_exception:KeyError"], "fix: process_iter() from two threads could raise KeyError",
      "two iterators after a flagged reuse, one pre-emption"),
@@ -35,6 +38,10 @@ FIXED = [
      "get_terminal_map() memoized for the life of the interpreter: a pty allocated later is unknown"),
     ("C07", ["cpu_times_wrong:after_procfs_switch", "cpu_times_exception:TypeError:after_procfs_switch"],
      "fix: cpu_times() kept the field layout of another PROCFS_PATH", "PROCFS_PATH moved to a procfs with another CPU field count and back"),
+    ("C07", ["cpu_percent_exception:AssertionError:after_procfs_switch", "cpu_times_percent_exception:AssertionError:after_procfs_switch",
+             "cpu_percent_exception:AttributeError:after_procfs_switch", "cpu_times_percent_exception:AttributeError:after_procfs_switch"],
+     "fix: cpu_percent() / cpu_times_percent() raised AssertionError after PROCFS_PATH moved",
+     "PROCFS_PATH pointed at a procfs whose /proc/stat has another field count -> the first call of each percent form raises AssertionError (a follow-on of the earlier cpu_times() layout repair)"),
     ("C08", ["vm_exception:BytesWarning"], "fix: virtual_memory() raised BytesWarning under python -bb",
      "python -bb, MemAvailable absent/0 and one of Active(file)/Inactive(file)/SReclaimable absent -> virtual_memory() raises BytesWarning instead of the free + cached fallback"),
     ("C10", ["value_mismatch:alternating_perdisk", "total_mismatch:alternating_perdisk", "counter_decreased:alternating_perdisk",
